@@ -447,6 +447,22 @@ func checkJSONTags(c *Ctx, rule string, pk *packages.Package) {
 	if fd := load.FuncDecl(pk, "schemaBuilder.buildFromStruct"); fd != nil {
 		// the flag is applied together with a predicate over the field's resolved type
 		var pred *types.Func
+		// the flag: the third result of parseJSONTag (whatever it is called here)
+		var flagObj types.Object
+		ast.Inspect(fd.Body, func(n ast.Node) bool {
+			as, ok := n.(*ast.AssignStmt)
+			if !ok || len(as.Rhs) != 1 || len(as.Lhs) < 3 {
+				return true
+			}
+			if call, ok := ast.Unparen(as.Rhs[0]).(*ast.CallExpr); ok {
+				if fn := goan.Callee(info, call); fn != nil && fn.Name() == "parseJSONTag" {
+					if id, ok := as.Lhs[2].(*ast.Ident); ok && id.Name != "_" {
+						flagObj = info.ObjectOf(id)
+					}
+				}
+			}
+			return true
+		})
 		ast.Inspect(fd.Body, func(n ast.Node) bool {
 			ifs, ok := n.(*ast.IfStmt)
 			if !ok {
@@ -454,7 +470,7 @@ func checkJSONTags(c *Ctx, rule string, pk *packages.Package) {
 			}
 			mentionsFlag := false
 			ast.Inspect(ifs.Cond, func(m ast.Node) bool {
-				if id, ok := m.(*ast.Ident); ok && id.Name == "isString" {
+				if id, ok := m.(*ast.Ident); ok && flagObj != nil && info.Uses[id] == flagObj {
 					mentionsFlag = true
 				}
 				return true
